@@ -382,7 +382,16 @@ def subqap(nm):
                 return ret
 
             argscopy = for_each_in(runtime.LinComb, copyandadd, args)
-            ret = fn(*argscopy, **kwargs)
+
+            # constants used inside the function (LinComb.ONE: comparisons, assertions with ints, ...) must
+            # refer to the function's own constant-one wire, not to the caller's
+            oldones = (runtime.LinComb.ONE, runtime.LinComb.ONE_SAFE)
+            if runtime.guard is None:
+                runtime.LinComb.ONE = runtime.LinComb.ONE_SAFE = runtime.LinComb(1, one())
+            try:
+                ret = fn(*argscopy, **kwargs)
+            finally:
+                (runtime.LinComb.ONE, runtime.LinComb.ONE_SAFE) = oldones
             continuefn(oldctx)
             retcopy = for_each_in(runtime.LinComb, copyandaddrev, ret)
 
